@@ -22,6 +22,7 @@ type schemeSwitch struct {
 	Cases   map[string]string // scheme -> constructed type name
 	Default *ast.CaseClause
 	Pos     token.Pos
+	Derived string // non-empty: the tag is not the scheme itself but an expression computed from it
 }
 
 // findSchemeSwitches: switch statements whose tag selects the Scheme field of
@@ -83,10 +84,22 @@ func findSchemeSwitches(w *World) []schemeSwitch {
 					}
 				}
 			}
+			derived := ""
+			if !isScheme {
+				// a rewritten scheme: switch f(x.Scheme, ...)
+				if call, ok := unparen(sw.Tag).(*ast.CallExpr); ok {
+					for _, a := range call.Args {
+						if f2 := fieldOfSel(info, a); f2 != nil && f2.Name() == "Scheme" && f2.Pkg() != nil && f2.Pkg().Path() == "net/url" {
+							isScheme = true
+							derived = exprStr(sw.Tag)
+						}
+					}
+				}
+			}
 			if !isScheme {
 				return true
 			}
-			ss := schemeSwitch{Fn: obj, Decl: fd, Stmt: sw, Cases: map[string]string{}, Pos: sw.Pos()}
+			ss := schemeSwitch{Fn: obj, Decl: fd, Stmt: sw, Cases: map[string]string{}, Pos: sw.Pos(), Derived: derived}
 			for _, st := range sw.Body.List {
 				cc := st.(*ast.CaseClause)
 				if cc.List == nil {
@@ -204,6 +217,9 @@ func checkC18(w *World, r *Report) {
 		return ""
 	}
 	for _, s := range sws {
+		if s.Derived != "" && roleOf(s) != "" {
+			r.Violate("R18.1", "dispatcher:"+roleOf(s)+"|exact-scheme", w.Pos(s.Pos), "the dispatcher switches on "+s.Derived+", not on the scheme itself: every '<carrier>+<anything>' (a typo of +tls, an undocumented modifier) is admitted and handed to the carrier's type, which only looks for '+tls' — an unknown address is no longer a configuration error and can silently select the unencrypted transport")
+		}
 		byFn[funcKey(s.Fn)] = append(byFn[funcKey(s.Fn)], s)
 		if role := roleOf(s); role != "" {
 			byFn[role] = append(byFn[role], s)
@@ -294,10 +310,12 @@ func checkC18(w *World, r *Report) {
 // c18SchemeImmutable: R18.5 — an upstream's Connect runs again on every
 // reconnect, so it must not rewrite the configured scheme: stripping "+tls"
 // in place turns the second attempt into a plaintext dial.
-func c18SchemeImmutable(w *World, r *Report) {
+func c18SchemeImmutable(w *World, r *Report) { ruleSchemeImmutable(w, r, "R18.5") }
+
+func ruleSchemeImmutable(w *World, r *Report, rule string) {
 	ui := w.Interface("internal/client/upstream", "Upstream")
 	if ui == nil {
-		r.Undecided("R18.5", "anchor", "-", "anchor unresolved: upstream.Upstream")
+		r.Undecided(rule, "anchor", "-", "anchor unresolved: upstream.Upstream")
 		return
 	}
 	seenM := map[*types.Func]bool{}
@@ -351,7 +369,7 @@ func c18SchemeImmutable(w *World, r *Report) {
 		if fn := w.SSAFunc(m); fn != nil && len(fn.Params) > 0 {
 			walk(fn, fn.Params[0], 0)
 		}
-		r.Check(bad == "", "R18.5", key, w.Pos(m.Pos()), "Connect works on a copy: the configured scheme is never written", bad)
+		r.Check(bad == "", rule, key, w.Pos(m.Pos()), "Connect works on a copy: the configured scheme is never written", bad)
 	}
 }
 
